@@ -116,6 +116,10 @@ type EnvelopeFieldValue struct {
 
 func (envelopeField EnvelopeFieldValue) AsIR(schemas ast.Schemas, envelopeType ast.Type) (ast.EnvelopeFieldValue, error) {
 	resolvedEnvelope := schemas.ResolveToType(envelopeType)
+	if !resolvedEnvelope.IsStruct() {
+		return ast.EnvelopeFieldValue{}, fmt.Errorf("envelope field %s: the value being assigned is not a struct", envelopeField.Field)
+	}
+
 	field, found := resolvedEnvelope.Struct.FieldByName(envelopeField.Field)
 	if !found {
 		return ast.EnvelopeFieldValue{}, fmt.Errorf("envelope field %s not found", envelopeField.Field)
